@@ -109,7 +109,16 @@ class Args:
 
 
 def attach(owner, name, monitor):
-    """Wrap ``owner.name`` (function, staticmethod or classmethod) everywhere."""
+    """Wrap ``owner.name`` (function, staticmethod or classmethod) everywhere.
+
+    ``owner`` is a module or a (public) class; for a class the defining class is
+    looked up along the MRO, so that the harness does not depend on how the library
+    splits its classes into mixins."""
+    if isinstance(owner, type) and name not in vars(owner):
+        for klass in owner.__mro__:
+            if name in vars(klass) and getattr(klass, '__module__', '').startswith('concepts'):
+                owner = klass
+                break
     raw = vars(owner)[name]
     orig, deco = _unwrap(raw)
     if getattr(orig, '__rv_wrapper__', False):
@@ -255,7 +264,7 @@ def _ctor_args(args, kwargs):
 
 
 def attach_ctor(concepts):
-    attach(concepts.contexts.Data, '__init__', CtorMonitor())
+    attach(concepts.Context, '__init__', CtorMonitor())
 
 
 # ---------------------------------------------------------------------------
